@@ -67,7 +67,9 @@ def build():
             I.ctx.assume(z3.And(b >= 0, b <= known))
             ev = I.force(I.read_field(g, "_end_ball_event"))
             if ev.tag == "obj":
+                f0 = I.truth(I.read_field(ev.ref, "flag"))
                 I.havoc_field(ev.ref, "flag")
+                I.ctx.assume(z3.Implies(f0, I.truth(I.read_field(ev.ref, "flag"))))   # handlers only SET the flag
         finally:
             I.rely_modified |= I.modified
             I.modified = saved_mod
@@ -99,6 +101,7 @@ def build():
 
     def ev_clear(I, env, a, k):
         I.write_field(env["self"].ref, "flag", VBool(False))
+        emit(I, "flag.clear", ev=env["self"].ref.name)
         return NONE
 
     def ev_wait(I, env, a, k):
@@ -270,6 +273,22 @@ def build():
         return VBool(z3.And(*conj) if conj else z3.BoolVal(True))
     C.helpers["all_carry"] = all_carry
     C.helpers["n_flag_set"] = lambda I: VInt(len(events_named(I, "flag.set")))
+    C.helpers["n_remove_handler"] = lambda I: VInt(len(events_named(I, "remove_handler")))
+
+    def drain_handler_removed(I):
+        evs = events_named(I, "remove_handler")
+        if len(evs) != 1:
+            return VBool(False)
+        h = I.force(evs[0].args["handler"])
+        return VBool(h.tag == "fn" and h.kind == "bound" and h.name == "ball_drained")
+    C.helpers["drain_handler_removed_once"] = drain_handler_removed
+
+    def flag_cleared_only_before_start(I):
+        """the end-of-ball flag is cleared before the ball's start sequence and never after: an end request made while
+        the ball is starting (tilt, end_ball, failed ball search) is not lost"""
+        names = [e.name for e in I.cur_trace() if e.name in ("flag.clear", "call:_start_ball")]
+        return VBool(names == ["flag.clear", "call:_start_ball"])
+    C.helpers["flag_cleared_only_before_start"] = flag_cleared_only_before_start
     C.helpers["n_added_balls"] = lambda I: VInt(len(events_named(I, "add_ball")))
 
     def calls(I):
@@ -289,6 +308,7 @@ def build():
                               if e.name == "call:_award_extra_ball"] + [z3.BoolVal(True)]))
     C.helpers["extra_balls_only_while_not_ending"] = extra_ball_not_after_end
     C.trace_helpers = {"word", "word_starts", "n_posts", "kinds", "all_carry", "n_flag_set", "n_added_balls",
+                       "n_remove_handler", "drain_handler_removed_once", "flag_cleared_only_before_start",
                        "iteration_is_one_turn", "n_calls", "extra_balls_only_while_not_ending", "setup_done"}
 
     def call_emit(name):
@@ -317,7 +337,8 @@ def build():
                    "else n_posts() == 0"),
                   ("B3: the ball ends exactly when balls in play reaches zero",
                    "n_flag_set() == (1 if (old(self._balls_in_play) > 0 and self._balls_in_play == 0) else 0) and "
-                   "implies(n_flag_set() == 1, self._end_ball_event.flag)")],
+                   "implies(n_flag_set() == 1, self._end_ball_event.flag)"),
+                  ("the count change itself registers / removes no handler", "n_remove_handler() == 0")],
          modifies=["self._balls_in_play", "self._end_ball_event.flag"], raises={}, inline_calls=True)
     C.fn("Game.ball_drained", params=dict(balls=Int, kwargs=Opaque("Kwargs")),
          requires=[("drained balls are counted", "balls >= 0")],
@@ -376,16 +397,19 @@ def build():
                   ("S2: exactly one ball is requested for the playfield", "n_added_balls() == 1"),
                   MONO, SAMEP],
          modifies=RELY_MODS, raises={"AssertionError": "not self.machine.playfield"},
-         emits=lambda I, env, res: None,
+         emits=call_emit("_start_ball"),
          call_ensures=[MONO, SAMEP])
     C.fn("Game._end_ball", requires=[HASP],
          ensures=[("E1: the ball ends with will_end, ending (queue), ended; the drain handler is removed first",
                    "word('ball_will_end', 'ball_ending', 'ball_ended') and "
-                   "kinds('post_async', 'post_queue_async', 'post_async')"), MONO, SAMEP],
+                   "kinds('post_async', 'post_queue_async', 'post_async')"),
+                  ("E2: however the ball ended (last drain or a request) its drain handler is removed exactly once, so "
+                   "the next ball does not count a drain twice", "drain_handler_removed_once()"), MONO, SAMEP],
          modifies=RELY_MODS, raises={}, emits=lambda I, env, res: None, call_ensures=[MONO, SAMEP])
     C.fn("Game._run_ball", params=dict(is_extra_ball=Bool), requires=[HASP, KNOWN],
-         ensures=[("one ball: it starts, runs until balls in play reaches zero or an end is requested, then ends",
-                   "True"), MONO, SAMEP],
+         ensures=[("RB1: one ball: the end flag is cleared, THEN the ball starts, runs until the flag is set (balls in "
+                   "play reached zero or an end was requested - also during the start sequence) and ends",
+                   "flag_cleared_only_before_start()"), MONO, SAMEP],
          modifies=RELY_MODS, raises={"AssertionError": "not self.machine.playfield"}, emits=call_emit("_run_ball"),
          call_ensures=[MONO, SAMEP])
     C.fn("Game._award_extra_ball", requires=[HASP, KNOWN, ("the player has an extra ball", "self.player.extra_balls >= 1")],
